@@ -179,7 +179,7 @@ def check(ctx):
 def retry_loop(ctx):
     """The retry protocol of adaptive_euler_step, followed statement by statement (pvs/smallstep.py) for every small scenario:
     bound M, adaptive on/off, number of refused solves f.  The loop may be spelled any way."""
-    from ..smallstep import Machine, Mono, MULT, Opaque
+    from ..smallstep import Machine, Mono, MULT, Opaque, follow_private_methods, module_constants
     repo = ctx.repo
     f = repo.func(SOLVER, "TDGLSolver.adaptive_euler_step")
     fn = f.node
@@ -215,7 +215,9 @@ def retry_loop(ctx):
                     return NotImplemented
                 env = {p: Opaque(p) for p in params}
                 env["dt"] = Mono("dt", 0)
-                kind, val = Machine(env, attrs, call, fuel=32).run_function(fn)
+                env.update(module_constants(f.module.tree))
+                env["self"] = Opaque("self")
+                kind, val = Machine(env, attrs, follow_private_methods(repo.cls(SOLVER, "TDGLSolver"), call), fuel=32).run_function(fn)
                 tag = f"M={M} adaptive={adaptive} refused={fails}"
                 runs.append(tag)
                 # every solve k is handed dt * multiplier**k and otherwise the same arguments
